@@ -7,3 +7,77 @@ package jt808
 // header names one of the protocol versions of the standard (2011, 2013, 2019).
 //@ valid *JTMessage m: m != nil && m.Header != nil && m.Header.Property != nil && m.Header.ProtocolVersion >= 1 && m.Header.ProtocolVersion <= 3
 //@ valid *Header h: h != nil && h.Property != nil
+
+// ---------------------------------------------------------------------------------------------
+// Frame syntax (C02), written from the standard: 0x7e delimiters; inside, 0x7d starts a pair 7d 01 / 7d 02.
+// The one tolerated deviation: an unescaped 0x7d as the very last payload byte (the checksum).
+// ---------------------------------------------------------------------------------------------
+
+//@ spec w1(d []byte) bool = len(d) > 2 && d[0] == 0x7e && d[len(d)-1] == 0x7e
+//@ spec w2(d []byte) bool = forall(k, 1, len(d)-1, d[k] == 0x7d ==> (k == len(d)-2 || d[k+1] == 1 || d[k+1] == 2))
+
+// Content of the unescaped payload, written over the escaped text d (interior positions 1..len-2):
+// ec(d,k) counts the 0x7d bytes in [1,k); the token starting at k lands at output index k-1-ec(d,k).
+//@ spec ec(d []byte, k int) int = ite(k <= 1, 0, ec(d, k-1) + ite(d[k-1] == 0x7d, 1, 0))
+//@ spec esec(d []byte, k int) bool = k >= 2 && d[k-1] == 0x7d
+//@ spec etok(d []byte, k int) byte = ite(d[k] == 0x7d && k <= len(d)-3, ite(d[k+1] == 1, byte(0x7d), byte(0x7e)), d[k])
+
+// No 0x7d below k: nothing is counted.
+//@ lemma ecZero(d []byte, k int): forall(m, 1, k, d[m] != 0x7d) ==> ec(d, k) == 0 by induction k from 1 trigger ec(d, k)
+
+// The count never exceeds the number of positions.
+//@ lemma ecBound(d []byte, k int): k >= 1 ==> 0 <= ec(d, k) && ec(d, k) <= k-1 by induction k from 1 trigger ec(d, k)
+
+//@ func unescape
+//@   mode contract
+//@   modifies nothing
+//@   use ecZero(data)
+//@   use ecBound(data)
+//@   ensures C02.iff: iff(result1 == nil, old(w1(data) && w2(data)))
+//@   ensures C02.nil: result1 != nil ==> result0 == nil
+//@   ensures C02.err: result1 != nil ==> iserr(result1, protocol.ErrUnqualifiedData)
+//@   ensures C09.own: within(result0, data) || fresh(result0)
+//@   ensures len: result1 == nil ==> 1 <= len(result0) && len(result0) <= len(data) - 2
+//@   ensures C01.len: result1 == nil ==> len(result0) == len(data) - 2 - old(ec(data, len(data)-2))
+//@   ensures C01.content: result1 == nil ==> forall(k, 1, len(data)-1, !old(esec(data, k)) ==> result0[k-1-old(ec(data,k))] == old(etok(data, k)))
+//@   loop 1 invariant pos: 1 <= index && index <= i && i <= len(data) - 1
+//@   loop 1 invariant pairs: forall(k, 1, i, old(data[k]) == 0x7d ==> (old(data[k+1]) == 1 || old(data[k+1]) == 2))
+//@   loop 1 invariant open: bufopen(buf)
+//@   loop 1 invariant buflen: 0 <= buflen(buf) && buflen(buf) <= index - 1 && (index > 1 ==> buflen(buf) >= 1)
+//@   loop 1 invariant C01.flat: forall(j, index, i+1, old(ec(data, j)) == old(ec(data, index)))
+//@   loop 1 invariant C01.plain: forall(k, index, i, old(data[k]) != 0x7d)
+//@   loop 1 invariant C01.nosec: index == 1 || old(data[index-1]) != 0x7d
+//@   loop 1 invariant C01.blen: buflen(buf) == index - 1 - old(ec(data, index))
+//@   loop 1 invariant C01.bbound: forall(k, 1, index, !old(esec(data, k)) ==> k-1-old(ec(data,k)) < buflen(buf))
+//@   loop 1 invariant C01.bcontent: forall(k, 1, index, !old(esec(data, k)) ==> bufat(buf, k-1-old(ec(data,k))) == old(etok(data, k)))
+//@   loop 1 decreases len(data) - i
+
+// ---------------------------------------------------------------------------------------------
+// escape: 0x7e -> 7d 02, 0x7d -> 7d 01, delimiters added. sc(d,k) counts the special bytes in [0,k);
+// input byte k lands at output index 1+k+sc(d,k).
+// ---------------------------------------------------------------------------------------------
+//@ spec special(b byte) bool = b == 0x7d || b == 0x7e
+//@ spec sc(d []byte, k int) int = ite(k <= 0, 0, sc(d, k-1) + ite(special(d[k-1]), 1, 0))
+//@ spec scode(b byte) byte = ite(b == 0x7d, byte(1), byte(2))
+//@ lemma scBound(d []byte, k int): k >= 0 ==> 0 <= sc(d, k) && sc(d, k) <= k by induction k from 0 trigger sc(d, k)
+
+//@ func escape
+//@   mode contract
+//@   modifies nothing
+//@   use scBound(data)
+//@   ensures fresh: fresh(result)
+//@   ensures C01.len: len(result) == 2 + len(data) + old(sc(data, len(data)))
+//@   ensures C01.delims: result[0] == 0x7e && result[len(result)-1] == 0x7e
+//@   ensures C01.nodelim: forall(j, 1, len(result)-1, result[j] != 0x7e)
+//@   ensures C01.plain: forall(k, 0, len(data), !special(old(data[k])) ==> result[1+k+old(sc(data,k))] == old(data[k]))
+//@   ensures C01.pair: forall(k, 0, len(data), special(old(data[k])) ==> result[1+k+old(sc(data,k))] == 0x7d && result[2+k+old(sc(data,k))] == scode(old(data[k])))
+//@   loop 1 invariant pos: 0 <= index && index <= i && i <= len(data)
+//@   loop 1 invariant open: bufopen(buf)
+//@   loop 1 invariant plain: old(allbytes(b, data[index:i], !special(b)))
+//@   loop 1 invariant flat: forall(j, index, i+1, old(sc(data, j)) == old(sc(data, index)))
+//@   loop 1 invariant blen: buflen(buf) == 1 + index + old(sc(data, index))
+//@   loop 1 invariant first: bufat(buf, 0) == 0x7e
+//@   loop 1 invariant nodelim: forall(j, 1, buflen(buf), bufat(buf, j) != 0x7e)
+//@   loop 1 invariant bbound: forall(k, 0, index, 2+k+old(sc(data,k)) <= buflen(buf))
+//@   loop 1 invariant bplain: forall(k, 0, index, !special(old(data[k])) ==> bufat(buf, 1+k+old(sc(data,k))) == old(data[k]))
+//@   loop 1 invariant bpair: forall(k, 0, index, special(old(data[k])) ==> bufat(buf, 1+k+old(sc(data,k))) == 0x7d && bufat(buf, 2+k+old(sc(data,k))) == scode(old(data[k])))
